@@ -1212,7 +1212,7 @@ KNOWN = [{"key": "string-read-not-inverse",
 # string back (op `rsame`, never generated).  `rs` on arbitrary bytes (incl. hostile lengths) IS generated and modelled.
 
 TRUSTED = ["tools/props/c16.py translate(): regex extraction (byte-order test of every operator<< / operator>>, byte count of the "
-           "non-swapping Array<T> branch, shift/index terms and _ptr advance of read2/4/8, readN dispatch of the operator>> overloads, the index expression of swapBytes, "
+           "non-swapping Array<T> branch, the memory path of each generic operator<<(const T&) statement by statement (which object swapBytes and write touch), shift/index terms and _ptr advance of read2/4/8, readN dispatch of the operator>> overloads, the index expression of swapBytes, "
            "default byte orders, IsArithmetic<T> via a second probe, the tests and counts of File/Socket operator>>(Array<T>&); whole-body shape checks (TranslateError otherwise, nothing generated) "
            "of the raw-byte overloads, operator<<(char*), StreamBuffer's operator<<(const T (&)[N]), StreamBuffer::write, StreamBufferReader::read(n)/skip, the put_/get_ Array dispatch of the generic "
            "File/Socket operators, File::operator>>(String&), Socket::readString, the size<=0 guard of Socket_::read) from include/asl/{defs,StreamBuffer,File,Socket}.h and src/Socket.cpp into lean/Gen/StreamGen.lean; "
@@ -1245,11 +1245,19 @@ LEVEL_TEXT = ("Proved in Lean 4 for all three classes, all 12 scalar types, all 
               "well-formedness hypothesis WF that a .carray occurs only on StreamBuffer with T != char); "
               "whole histories also read back when every Array<T> is read with one stream >> Array<T> (read_back_array_op, File/Socket); >> String as a function of "
               "the bytes: the next n bytes for the int32 prefix n, 0 when negative, File clamped to what exists (string_read_spec); "
-              "length-prefixed strings, NULs included, read back on File and Socket (string_read_back). The two switch theorems and the raw-byte cases of read_back hold by the shape "
-              "of the model (setEndian writes/reads no byte; ByteArray/String/const char* writes are the bytes themselves; read(n)/skip are take/drop): "
-              "likewise a model write cannot alter its argument (it returns only the new order and the bytes): that the real operator<< leaves the "
-              "caller's const T& / const Array<T>& untouched is observed by the harness after every write (one Array object written repeatedly, dumped each time). "
-              "That the real setEndian, raw-byte, String and skip transport behave so is validated by the correspondence check only, plus a "
+              "length-prefixed strings, NULs included, read back on File and Socket (string_read_back). "
+              "A write leaves its argument unchanged: the generic operator<<(const T&) of each class is modelled as the list of memory steps the translator finds in its body "
+              "(temporary copy / swapBytes on the temporary or in place on the caller's object / write from either: Gen WStmt, sbPath, filePath, sockPath; obligation gen_writer_paths), "
+              "Array<T> hands every element itself (a reference) to it in the item-by-item branch; scalar_write_mem and array_write_mem show, for every class, type, order, length and content, "
+              "that the bytes handed to write are those of the value-level model and that the object's / the array's storage afterwards is the storage before "
+              "(array_argument_unchanged: the caller still reads its values); runW_swap_back: an in-place swap that is swapped back would be equivalent, runW_in_place_alters: one that is not "
+              "swapped back alters the argument whenever its bytes are not a palindrome (a source changed that way regenerates a different path and the obligations fail; tried on a scratch copy). "
+              "The driver's w/wa/wv run these memory-level writers and print the argument afterwards as the harness does from the real object. "
+              "Raw bytes and skip: a raw/String/ByteArray write anywhere in a history appends exactly the argument's bytes between the earlier and the later encodings and leaves the order alone (raw_write_spec); "
+              "on arbitrary data read(n) returns the next n bytes and skip(n) advances by exactly n, the later reads being those on the remaining data (raw_read_spec, skip_spec; skip = discarded read, skips add up: skip_compose); "
+              "a history read back with ANY subset of its items stepped over by skip(size of the item) returns the original values of all the others, with order switches anywhere (read_back_with_skips). "
+              "In the model setEndian writes/reads no byte, raw writes are the bytes themselves and read(n)/skip are take/drop: "
+              "that the real setEndian, raw-byte, String and skip operations are these functions is tied by the correspondence check (ops wb/ws/wz/wc/rb/skip, now also skips replacing typed reads in the read-back cases) plus a "
               "translator shape check of those overloads. The byte-order tests, Array byte counts, read2/4/8 shift/index terms, readN "
               "dispatch, swapBytes' index expression, ASL_OTHER_ENDIAN, host byte order and sizeof are regenerated from /repo on every run (G); the overload "
               "set actually selected by C++ for each type and the I/O plumbing are tied to the model by the correspondence check (K) on the three "
@@ -1258,7 +1266,7 @@ LEVEL_NOTE = ("Trusted: Lean kernel, the regex translator + compiler probe, the 
               "fwrite/fread/send/read transfer all bytes (partial-transfer loops belong to C17/C10). NATIVE = LITTLE in StreamBufferReader is correct "
               "only on a little-endian host: obligation gen_reader_cond fails on a big-endian build. Only K-validated (no theorem): which C++ overload "
               "is selected per type (the bodies of StreamBuffer's bool/byte/char overloads, of the ByteArray/Array<byte>/String/const char* overloads, of File/Socket >> char/byte and of StreamBufferReader::read(n)/skip are shape-checked by the translator, TranslateError otherwise), setEndian taking effect immediately, default byte orders, "
-              "skip/read(n). Reads past the end and File/Socket >> bool of a byte other than 0/1 are outside the property "
+              "that the real skip/read(n)/write(p,n) are drop/take/append (their consequences for histories are theorems: raw_write_spec, raw_read_spec, skip_spec, read_back_with_skips). Reads past the end and File/Socket >> bool of a byte other than 0/1 are outside the property "
               "(guarded in the protocol). Fixed defects kept as corpus witnesses: 264bf86 (Array<T> in native order wrote length() bytes), fbcbf17 (a StreamBuffer written into itself read freed "
               "storage), 8a61870 (Array<String> in native order wrote String object memory), e37681a (>> String trusted its length: out-of-bounds write), cdda882 "
               "(>> Array<T> read raw bytes over the Array object), 8331f50 (a zero-length Socket read marked the socket as failed), b125771 (Socket::readString cut the value at the first NUL; "
